@@ -1,6 +1,7 @@
 package props
 
 import (
+	"context"
 	"fmt"
 	"reflect"
 	"sort"
@@ -130,6 +131,12 @@ func (r *refRegistry) config() *kit.Config {
 		}
 	}
 	return cfg
+}
+
+// ctxAndI0 implements kit.I0 (through the embedded service) and context.Context.
+type ctxAndI0 struct {
+	kit.N0
+	context.Context
 }
 
 var c17Types = []int{0, 1, kit.NumD, kit.NumD + 1, kit.TI0, kit.TI1, kit.TI2}
@@ -447,6 +454,59 @@ func propC17Registry(col *evid.Collector, maxSteps int) func(rt *rapid.T) {
 				nt = true
 			}
 		}
+		// one call that would register a pool type AND one of the three reserved types (as a further
+		// result, a further result-object field, a further alias): rejected as a whole
+		doReservedSecondary := func() {
+			ty := rapid.SampledFrom([]int{0, 1, kit.NumD, kit.NumD + 1}).Draw(rt, "reservedWith")
+			reserved := rapid.SampledFrom([]reflect.Type{kit.CtxType, kit.ScopeType, kit.ProviderType}).Draw(rt, "reservedType")
+			shape := rapid.SampledFrom([]string{"multi", "out", "as"}).Draw(rt, "reservedShape")
+			var ctor any
+			var opts []godi.AddOption
+			switch shape {
+			case "multi":
+				ft := reflect.FuncOf(nil, []reflect.Type{kit.RType(ty), reserved}, false)
+				ctor = reflect.MakeFunc(ft, func([]reflect.Value) []reflect.Value {
+					return []reflect.Value{reflect.New(kit.RType(ty).Elem()), reflect.Zero(reserved)}
+				}).Interface()
+			case "out":
+				ot := reflect.StructOf([]reflect.StructField{
+					{Name: "Out", Type: reflect.TypeOf(godi.Out{}), Anonymous: true},
+					{Name: "A", Type: kit.RType(ty)},
+					{Name: "B", Type: reserved},
+				})
+				ft := reflect.FuncOf(nil, []reflect.Type{ot}, false)
+				ctor = reflect.MakeFunc(ft, func([]reflect.Value) []reflect.Value {
+					o := reflect.New(ot).Elem()
+					o.Field(1).Set(reflect.New(kit.RType(ty).Elem()))
+					return []reflect.Value{o}
+				}).Interface()
+			default:
+				// a type that implements I0 and context.Context alike: As[I0], As[context.Context]
+				ctor = func() *ctxAndI0 { return &ctxAndI0{} }
+				opts = []godi.AddOption{godi.As[kit.I0](), godi.As[context.Context]()}
+			}
+			var err error
+			var pan any
+			func() {
+				defer func() { pan = recover() }()
+				switch rapid.IntRange(0, 2).Draw(rt, "reservedLife") {
+				case 0:
+					err = coll.AddSingleton(ctor, opts...)
+				case 1:
+					err = coll.AddScoped(ctor, opts...)
+				default:
+					err = coll.AddTransient(ctor, opts...)
+				}
+			}()
+			steps = append(steps, fmt.Sprintf("add(%s + %v in one call, shape %s)", kit.TypeName(ty), reserved, shape))
+			switch {
+			case pan != nil:
+				f = fail("C17", "no-panic", "add-reserved", "Add panicked: %v", pan)
+			case err == nil:
+				f = fail("C17", "add-verdict", "accepted-invalid/reserved-"+shape, "a registration that provides %v was accepted", reserved)
+			}
+			nt = true
+		}
 		// replace: the documented way of swapping one service of a package for another - remove
 		// one identity of a registration that provides several, register a plain replacement
 		doReplace := func() {
@@ -620,6 +680,13 @@ func propC17Registry(col *evid.Collector, maxSteps int) func(rt *rapid.T) {
 		}
 		nsteps := rapid.IntRange(1, maxSteps).Draw(rt, "nsteps")
 		for i := 0; i < nsteps && f == nil; i++ {
+			if rapid.IntRange(0, 14).Draw(rt, "reservedSecondary") == 0 {
+				doReservedSecondary()
+				if f == nil && ref.tainted == "" {
+					f = ref.checkQueries(coll)
+				}
+				continue
+			}
 			if rapid.IntRange(0, 9).Draw(rt, "addModuleMulti") == 0 {
 				doAddModuleMulti()
 				if f == nil && ref.tainted == "" {
